@@ -10,6 +10,10 @@ A_NOTE = ("Trusted: std::sync::mpsc and the 30-line native transport (the simula
           "hash-iteration order pinned by the hooks; scenario templates over a stated grid.")
 
 CHECKS = {
+    "C11": dict(engine="enum", category="model_checking", design="7/C11",
+                technique="explicit-state search over REPL line histories (states are real sessions of the real Repl + Environment + workers), each history compared with the one-piece program",
+                text="All histories of <= 4 (thorough 5) lines over a 16-line alphabet chosen to interact (bindings, shadowing, destructuring, type aliases, closures over earlier bindings, previous-result flow, heap binaries and rebinding, imports, parse/compile-rejected lines, nil lines) plus every cut of 30 corpus programs into lines: per-line value and every bound variable equal the one-piece program; a rejected line leaves the session unchanged; heap accounting holds after every line.",
+                note="One-piece comparison programs hoist type-definition lines (known parser finding); references compare as 'a reference'; functions up to table index."),
     "C02": dict(engine="enum", category="exploration", design="5.2, 5.3, 7/C02, Appendix A",
                 technique="bounded-exhaustive enumeration of core-language programs (all programs up to n nodes and all cores x contexts) differentially executed against an independent reference interpreter of docs/spec.md",
                 text="Every program of the core grammar with <= 3 (thorough 4) nodes and every core of <= 2 (thorough 3) nodes in each of 25 contexts is parsed, compiled with the real compiler, run on the real VM, and compared with a direct AST interpreter of docs/spec.md written independently of the compiler (no bytecode, no simplify); compiler-rejected programs and programs on which the reference abstains (spec silent) are counted, not judged; disagreements are shrunk to minimal cores.",
